@@ -1,6 +1,7 @@
 package server
 
 import (
+	"bytes"
 	"fmt"
 	"os"
 	goUser "os/user"
@@ -44,6 +45,10 @@ func verifyAuthorizedKeys(user *user.User, authorizedKeysBytes []byte,
 	authorizedKeysMap := map[string]bool{}
 	for len(authorizedKeysBytes) > 0 {
 		authorizedPubKey, _, _, restBytes, err := gossh.ParseAuthorizedKey(authorizedKeysBytes)
+		if err != nil && len(authorizedKeysMap) > 0 && onlyCommentsOrBlankLines(authorizedKeysBytes) {
+			// Nothing but comments or blank lines after the last key.
+			break
+		}
 		if err != nil {
 			return nil, fmt.Errorf("unable to parse authorized keys bytes|%s|%s",
 				user, err.Error())
@@ -62,6 +67,16 @@ func verifyAuthorizedKeys(user *user.User, authorizedKeysBytes []byte,
 	}
 
 	return nil, fmt.Errorf("%s|public key of user not authorized", user)
+}
+
+func onlyCommentsOrBlankLines(b []byte) bool {
+	for _, line := range bytes.Split(b, []byte{'\n'}) {
+		line = bytes.TrimSpace(line)
+		if len(line) > 0 && line[0] != '#' {
+			return false
+		}
+	}
+	return true
 }
 
 func authorizedKeysFile(user *user.User) (string, error) {
